@@ -68,6 +68,25 @@ func divExact(t Term, m *big.Int) (Term, bool) {
 	return Term{}, false
 }
 
+// content returns g >= 1 such that t is a multiple of g for every value of its variables (from the structure).
+func content(t Term) *big.Int {
+	if t.Const {
+		if t.I.Sign() == 0 {
+			return big.NewInt(0) // gcd identity
+		}
+		return new(big.Int).Abs(t.I)
+	}
+	switch t.op {
+	case '*':
+		return new(big.Int).Mul(content(t.args[0]), new(big.Int).Abs(t.args[1].I))
+	case '+', '-':
+		return new(big.Int).GCD(nil, nil, content(t.args[0]), content(t.args[1]))
+	case 'i':
+		return new(big.Int).GCD(nil, nil, content(t.args[1]), content(t.args[2]))
+	}
+	return big.NewInt(1)
+}
+
 var varMu sync.RWMutex
 var varIDs = map[string]int{}
 var varNames []string
@@ -173,6 +192,13 @@ func Add(a, b Term) Term {
 	if b.Const && b.I.Sign() == 0 {
 		return a
 	}
+	// x + (y - x) = y ; (y - x) + x = y
+	if b.op == '-' && b.args[1].S == a.S {
+		return b.args[0]
+	}
+	if a.op == '-' && a.args[1].S == b.S {
+		return a.args[0]
+	}
 	return Term{S: app("+", a, b), V: unionV(a, b), NL: anyNL(a, b), op: '+', args: []Term{a, b}}
 }
 func Sub(a, b Term) Term {
@@ -181,6 +207,19 @@ func Sub(a, b Term) Term {
 	}
 	if b.Const && b.I.Sign() == 0 {
 		return a
+	}
+	if a.S == b.S {
+		return IntC(0)
+	}
+	// (x + y) - x = y ; (x + y) - y = x ; x - (x - y) = y
+	if a.op == '+' && a.args[0].S == b.S {
+		return a.args[1]
+	}
+	if a.op == '+' && a.args[1].S == b.S {
+		return a.args[0]
+	}
+	if b.op == '-' && b.args[0].S == a.S {
+		return b.args[1]
 	}
 	return Term{S: app("-", a, b), V: unionV(a, b), NL: anyNL(a, b), op: '-', args: []Term{a, b}}
 }
@@ -251,8 +290,22 @@ func cmp(op string, a, b Term, f func(c int) bool) Term {
 	if a.Const && b.Const {
 		return BoolC(f(a.I.Cmp(b.I)))
 	}
-	return Term{S: app(op, a, b), Bool: true, V: unionV(a, b), NL: anyNL(a, b)}
+	// cancel a common positive constant factor: (x*g) op (y*g) <=> x op y
+	if g := new(big.Int).GCD(nil, nil, content(a), content(b)); g.Cmp(big.NewInt(1)) > 0 {
+		if a2, ok1 := divExact(a, g); ok1 {
+			if b2, ok2 := divExact(b, g); ok2 {
+				a, b = a2, b2
+				if a.Const && b.Const {
+					return BoolC(f(a.I.Cmp(b.I)))
+				}
+			}
+		}
+	}
+	return Term{S: app(op, a, b), Bool: true, V: unionV(a, b), NL: anyNL(a, b), op: cmpOp[op], args: []Term{a, b}}
 }
+
+var cmpOp = map[string]byte{"<": '<', "<=": 'L', ">": '>', ">=": 'G', "=": '='}
+
 func Lt(a, b Term) Term { return cmp("<", a, b, func(c int) bool { return c < 0 }) }
 func Le(a, b Term) Term { return cmp("<=", a, b, func(c int) bool { return c <= 0 }) }
 func Gt(a, b Term) Term { return cmp(">", a, b, func(c int) bool { return c > 0 }) }
@@ -276,10 +329,13 @@ func Not(a Term) Term {
 	if a.Const {
 		return BoolC(!a.B)
 	}
+	if a.op == '!' {
+		return a.args[0]
+	}
 	if strings.HasPrefix(a.S, "(not ") {
 		return Term{S: a.S[5 : len(a.S)-1], Bool: true, V: a.V, NL: a.NL}
 	}
-	return Term{S: app("not", a), Bool: true, V: a.V, NL: a.NL}
+	return Term{S: app("not", a), Bool: true, V: a.V, NL: a.NL, op: '!', args: []Term{a}}
 }
 func And(a, b Term) Term {
 	if a.Const {
@@ -294,7 +350,7 @@ func And(a, b Term) Term {
 		}
 		return BoolC(false)
 	}
-	return Term{S: app("and", a, b), Bool: true, V: unionV(a, b), NL: anyNL(a, b)}
+	return Term{S: app("and", a, b), Bool: true, V: unionV(a, b), NL: anyNL(a, b), op: '&', args: []Term{a, b}}
 }
 func Or(a, b Term) Term {
 	if a.Const {
@@ -355,8 +411,17 @@ func NewSolver(bin string, args ...string) (*Solver, error) {
 	if err := cmd.Start(); err != nil {
 		return nil, err
 	}
-	return &Solver{cmd: cmd, in: in, out: bufio.NewReader(out)}, nil
+	sv := &Solver{cmd: cmd, in: in, out: bufio.NewReader(out)}
+	if d := os.Getenv("VERIF_SMTLOG"); d != "" {
+		solverSeq++
+		if f, err := os.Create(fmt.Sprintf("%s/solver-%d-%d.smt2", d, os.Getpid(), solverSeq)); err == nil {
+			sv.log = f
+		}
+	}
+	return sv, nil
 }
+
+var solverSeq int
 
 var slowLog = os.Getenv("VERIF_SLOWLOG") != ""
 
